@@ -411,7 +411,7 @@ func (c *Ctx) redisNonEmptyBatches(r *redisRoles, rule string) {
 		}
 		for _, p := range root.Params {
 			if _, isSlice := p.Type().Underlying().(*types.Slice); isSlice && !isByteSlice(p.Type()) {
-				if lenLowerBound(b, p) >= 1 {
+				if lenLowerBound(b, p) >= 1 || accumNonEmptyYB(b, p) {
 					return true
 				}
 			}
